@@ -148,9 +148,10 @@ Definition away_before (h : Z) (offs : list Z) (i : Z) : Z := away_run h 0 (zfir
 (* "each unwrapped output sample equals the input sample (after the configured bit drop and optional
     inversion) plus an integer number of flux quanta" — in 16-bit arithmetic, of which the quantum is a divisor *)
 Definition mod_quantum_ok (p : params) (xs ys : list Z) : Prop :=
+  let vs := map (prep p) xs in
   zlen ys = zlen xs /\
   forall i, 0 <= i < zlen xs ->
-    (znth 0 ys i - prep p (znth 0 xs i)) mod quantum p = 0 /\ 0 <= znth 0 ys i < 65536.
+    (znth 0 ys i - znth 0 vs i) mod quantum p = 0 /\ 0 <= znth 0 ys i < 65536.
 
 (* "between automatic resets, each output step equals the input step reduced modulo one quantum to within
     half a quantum of the configured bias" *)
